@@ -3,6 +3,7 @@ package world
 import (
 	"fmt"
 	"strings"
+	"time"
 
 	"verif/harness/xt"
 )
@@ -105,6 +106,11 @@ type SPSpec struct {
 	// WantAssertionsSigned: the SPSSODescriptor attribute ("" = absent | true | false | 1 | 0). What the provider wishes for
 	// the SSO profile changes nothing about what the statements promise.
 	WantAssertionsSigned string `json:"want_assertions_signed,omitempty"`
+	// ValidUntil / CacheDuration: the optional attributes of the EntityDescriptor ("" = absent; ValidUntil "@past" / "@future" are
+	// rendered relative to now, "role:" in front puts the attribute on the SPSSODescriptor instead). They tell a consumer of
+	// metadata how long to keep a copy; what the storage holds as registered is registered.
+	ValidUntil    string `json:"valid_until,omitempty"`
+	CacheDuration string `json:"cache_duration,omitempty"`
 }
 
 type CustomAttr struct {
@@ -188,6 +194,23 @@ func (sp SPSpec) MetadataXML() []byte {
 	ed := xt.NewElem("md", NSMD, "EntityDescriptor").Declare("md", NSMD)
 	ed.SetAttr("entityID", sp.EntityID)
 	sso := xt.NewElem("md", NSMD, "SPSSODescriptor")
+	if sp.ValidUntil != "" {
+		v, onRole := strings.CutPrefix(sp.ValidUntil, "role:")
+		switch v {
+		case "@past":
+			v = time.Now().Add(-48 * time.Hour).UTC().Format("2006-01-02T15:04:05Z")
+		case "@future":
+			v = time.Now().Add(48 * time.Hour).UTC().Format("2006-01-02T15:04:05Z")
+		}
+		if onRole {
+			sso.SetAttr("validUntil", v)
+		} else {
+			ed.SetAttr("validUntil", v)
+		}
+	}
+	if sp.CacheDuration != "" {
+		ed.SetAttr("cacheDuration", sp.CacheDuration)
+	}
 	if sp.AuthnRequestsSigned != Absent {
 		sso.SetAttr("AuthnRequestsSigned", sp.AuthnRequestsSigned)
 	}
